@@ -225,6 +225,86 @@ Definition refs_candidates (d : device) : list gen_error :=
 Definition refs_validated_ok (d : device) : bool :=
   match refs_candidates d with [] => true | _ => false end.
 
+(* ---------- ensure_no_recursive_block_refs (repair of D11, /repo df1ac90) ----------
+   Called at the very end of refs_validated::run_pass, after the three "refers to unknown" loops.
+
+   instantiated_blocks : BTreeMap<block name, Vec<name>>.  recurse_objects visits the blocks in pre-order;
+   each block pushes, for its DIRECT children in source order, the name of a sub block / the target of a
+   block ref.  `entry(name).or_default()` appends to the entry of an equally named block (possible under
+   different cfgs).  Kept here as the list of edges (block name, instantiated name) in push order; looking a
+   name up (inst_of) returns its pushes in that order, which is exactly the Vec of the map entry. *)
+Definition child_inst (o : object) : list string :=
+  match o with
+  | OBlock _ n _ _ _ => [n]
+  | ORef _ _ (OvBlock t _ _) => [t]
+  | _ => []
+  end.
+
+Definition inst_edges (os : list object) : list (string * string) :=
+  flat_map (fun o => match o with
+                     | OBlock _ n _ _ objs => map (pair n) (flat_map child_inst objs)
+                     | _ => []
+                     end) os.
+
+(* instantiated_blocks.get(b).into_iter().flatten() *)
+Definition inst_of (E : list (string * string)) (b : string) : list string :=
+  map snd (filter (fun e => String.eqb (fst e) b) E).
+
+(* block_refs : Vec<(ref name, enclosing block name, target name)>: for every block in pre-order, its direct
+   block-ref children in source order (NOT the pre-order of the refs: the refs of a block come before the refs
+   of its sub blocks).  Block refs at the root level have no enclosing block and are never pushed. *)
+Definition child_block_ref (p : string) (o : object) : list (string * string * string) :=
+  match o with
+  | ORef _ r (OvBlock t _ _) => [(r, p, t)]
+  | _ => []
+  end.
+
+Definition block_ref_sites (os : list object) : list (string * string * string) :=
+  flat_map (fun o => match o with
+                     | OBlock _ n _ _ objs => flat_map (child_block_ref n) objs
+                     | _ => []
+                     end) os.
+
+(* the `while let Some(block_name) = todo.pop()` loop.  The head of [todo] is the top of the stack
+   (Vec::pop takes the last element, Vec::extend appends in order: the last pushed name is visited first,
+   hence the [rev]).  One unit of fuel per iteration; [true] = the `ensure!` fired. *)
+Fixpoint rec_walk (fuel : nat) (succ : string -> list string) (enclosing : string)
+                  (seen todo : list string) : outcome bool :=
+  match fuel with
+  | O => Fail OutOfFuel
+  | S f =>
+    match todo with
+    | [] => Ok false
+    | b :: rest =>
+      if String.eqb b enclosing then Ok true
+      else if mem_str b seen then rec_walk f succ enclosing seen rest
+      else rec_walk f succ enclosing (b :: seen) (rev (succ b) ++ rest)
+    end
+  end.
+
+(* `for (reffer_name, enclosing_block_name, ref_target_name) in block_refs`: the first site whose walk gets
+   back to the enclosing block is reported *)
+Fixpoint first_recursive (fuel : nat) (E : list (string * string)) (sites : list (string * string * string))
+  : outcome (option gen_error) :=
+  match sites with
+  | [] => Ok None
+  | (r, p, t) :: rest =>
+    do hit <- rec_walk fuel (inst_of E) p [] [t];
+    if hit then Ok (Some (mk_err "ref_recursive" [r; t])) else first_recursive fuel E rest
+  end.
+
+(* Every iteration pops one name; a name is pushed once at the start and once per edge whose source is
+   inserted into [seen] (each source at most once): at most |E| + 1 pops, + 1 iteration that finds the stack
+   empty.  NamesProofs.recursive_check_total: this fuel never runs out. *)
+Definition recursive_fuel (E : list (string * string)) : nat := S (S (List.length E)).
+
+Definition recursive_block_refs (d : device) : outcome (option gen_error) :=
+  let os := preorder_objects (d_objects d) in
+  first_recursive (recursive_fuel (inst_edges os)) (inst_edges os) (block_ref_sites os).
+
+Definition no_recursive_block_refs (d : device) : bool :=
+  match recursive_block_refs d with Ok None => true | _ => false end.
+
 (* ====================== reset_values_converted: the two `expect`s ======================
    This pass runs BEFORE refs_validated.  For a register ref that overrides the reset value it
    looks the target up with search_object (any kind) and unwraps: a missing target or a target that
@@ -302,6 +382,35 @@ Definition lower (fuel : nat) (root : string) (dev : list object) : outcome (lis
   do ms <- mapO (get_method fuel dev) dev;
   Ok ((root, map fst ms) :: flat_map snd ms).
 
+(* --- after the repair of D9 (/repo 7e1bb11) ---
+   get_method no longer re-enters collect_into_blocks for a block ref: the ref only gets an accessor whose
+   type is the target's struct; register / command refs still go through the clone, which is a leaf.  The
+   recursion is structural on the tree (no fuel): THIS lowering always terminates.  [get_method]/[lower]
+   above remain the model of the EXPANSION of block refs (what the unrepaired lowering did, and what the LIR
+   pass addresses_non_overlapping still does by name); the termination theorems are about it. *)
+Fixpoint get_method_accessor (dev : list object) (o : object) : outcome (method * list lir_block) :=
+  match o with
+  | OBlock _ n _ _ objs =>
+    do ms <- (fix go (l : list object) : outcome (list (method * list lir_block)) :=
+                match l with
+                | [] => Ok []
+                | a :: t => do b <- get_method_accessor dev a; do bs <- go t; Ok (b :: bs)
+                end) objs;
+    Ok ((to_snake_default n, n), (n, map fst ms) :: flat_map snd ms)
+  | ORef _ n ov =>
+    match search_object (override_target ov) dev with
+    | None => Fail AssertFail                    (* expect("All refs are validated in a mir pass") *)
+    | Some tgt =>
+      if okind_eqb (object_kind tgt) (override_kind ov) then Ok ((to_snake_default n, leaf_type tgt), [])
+      else Fail AssertFail                       (* as_<kind>_mut().expect(..) *)
+    end
+  | _ => Ok ((to_snake_default (object_name o), leaf_type o), [])
+  end.
+
+Definition lower_accessor (root : string) (dev : list object) : outcome (list lir_block) :=
+  do ms <- mapO (get_method_accessor dev) dev;
+  Ok ((root, map fst ms) :: flat_map snd ms).
+
 Definition lowering_terminates (dev : list object) : Prop :=
   exists fuel, lower fuel "Root" dev <> Fail OutOfFuel.
 
@@ -328,6 +437,29 @@ Inductive nested_plus (dev : list object) : string -> string -> Prop :=
 | np_step a m t : nested dev a m -> nested_plus dev m t -> nested_plus dev a t.
 
 Definition cyclic (dev : list object) : Prop := exists a, nested_plus dev a a.
+
+(* --- what ensure_no_recursive_block_refs must reject, written from the description of the repair
+   (independent of the worklist of rec_walk) ---
+   [instantiates os p q]: some block named p (os = pre-order list) has, as a DIRECT child, a sub block
+   named q or a block ref whose target is q. *)
+Inductive reaches (R : string -> string -> Prop) : string -> string -> Prop :=
+| reaches_refl a : reaches R a a
+| reaches_step a b c : R a b -> reaches R b c -> reaches R a c.
+
+Definition instantiates (os : list object) (p q : string) : Prop :=
+  exists c off rep objs ch, In (OBlock c p off rep objs) os /\ In ch objs /\
+    ((exists c' off' rep' objs', ch = OBlock c' q off' rep' objs') \/
+     (exists c' r a rp, ch = ORef c' r (OvBlock q a rp))).
+
+(* a block ref r, direct child of a block p, whose target t instantiates — in zero or more steps — p *)
+Definition recursive_site (os : list object) (r p t : string) : Prop :=
+  (exists c off rep objs cr a rp,
+     In (OBlock c p off rep objs) os /\ In (ORef cr r (OvBlock t a rp)) objs) /\
+  reaches (instantiates os) t p.
+
+Definition recursive_in (os : list object) : Prop := exists r p t, recursive_site os r p t.
+
+Definition recursive_block_ref (dev : list object) : Prop := recursive_in (preorder_objects dev).
 
 (* executable cycle test used by the pipeline model: lower with fuel (tree size + 1)^2 *)
 Definition tree_size (objs : list object) : nat :=
@@ -434,12 +566,22 @@ Definition shape_ok_manifest (s : ov_shape) : Prop :=
 
 (* ====================== the name/reference part of the pipeline ====================== *)
 
-(* names_normalized; names_unique; ...; refs_validated — as one decision *)
-Definition name_ref_check (d : device) : bool :=
+(* names_normalized; names_unique; ...; refs_validated — as one decision.
+   HISTORICAL: refs_validated before the repair of D11 (/repo df1ac90), i.e. without
+   ensure_no_recursive_block_refs.  Kept for C14_self_ref_refuted. *)
+Definition name_ref_check_before_d11_repair (d : device) : bool :=
   let d' := names_normalized d in
   match names_unique d' with
   | Some _ => false
   | None => refs_validated_ok d'
+  end.
+
+(* CURRENT: refs_validated = the three "refers to unknown" loops, then ensure_no_recursive_block_refs *)
+Definition name_ref_check (d : device) : bool :=
+  let d' := names_normalized d in
+  match names_unique d' with
+  | Some _ => false
+  | None => refs_validated_ok d' && no_recursive_block_refs d'
   end.
 
 (* ====================== SPEC (from the property text) ======================
@@ -491,10 +633,32 @@ Section Spec.
 
   Definition spec_reject (os : list object) : Prop :=
     spec_dup_object os \/ spec_dup_field os \/ spec_dup_variant os \/ spec_dup_enum os \/ spec_bad_ref os.
+
+  (* STRUCTURAL reason (not a naming one; the property text lists naming reasons only): a block ref that lies
+     inside the block it refers to, directly or through sub blocks / other block refs — an infinitely deep
+     device.  Same shape as [instantiates]/[recursive_site], on the tree the user wrote: names are compared
+     after normalisation. *)
+  Definition spec_instantiates (os : list object) (p q : string) : Prop :=
+    exists c n off rep objs ch, In (OBlock c n off rep objs) os /\ P n = p /\ In ch objs /\
+      ((exists c' n' off' rep' objs', ch = OBlock c' n' off' rep' objs' /\ P n' = q) \/
+       (exists c' r t a rp, ch = ORef c' r (OvBlock t a rp) /\ P t = q)).
+
+  Definition spec_recursive_ref (os : list object) : Prop :=
+    exists c n off rep objs cr r t a rp,
+      In (OBlock c n off rep objs) os /\ In (ORef cr r (OvBlock t a rp)) objs /\
+      reaches (spec_instantiates os) (P t) (P n).
 End Spec.
 
-Definition C14_spec_reject (d : device) : Prop :=
+(* the naming reasons of the property text (the whole reject class before the repair of D11) *)
+Definition C14_spec_reject_names (d : device) : Prop :=
   spec_reject (dev_boundaries d) (preorder_objects (d_objects d)).
+
+Definition C14_spec_recursive_ref (d : device) : Prop :=
+  spec_recursive_ref (dev_boundaries d) (preorder_objects (d_objects d)).
+
+(* reject class of the current name / reference validation *)
+Definition C14_spec_reject (d : device) : Prop :=
+  C14_spec_reject_names d \/ C14_spec_recursive_ref d.
 
 (* ====================== result strings for the correspondence check ====================== *)
 
@@ -634,3 +798,38 @@ Definition c14_result_refs_first (dev_name : string) (d : device) : string :=
 
 Definition c14_full_refs_first (dev_name : string) (d : device) : string :=
   c14_result_refs_first dev_name d ++ " ## " ++ c14_facts d.
+
+(* After the repairs of D14 (0a1d247: refs_validated first), D11 (df1ac90: refs_validated ends with
+   ensure_no_recursive_block_refs) and D9 (7e1bb11: a block ref is lowered to an accessor only): the CURRENT
+   name / reference pipeline.  "abort:recursion_check_fuel" cannot occur (NamesProofs.recursive_check_total);
+   it is printed rather than hidden so that a wrong bound would show up as a disagreement. *)
+Definition c14_result_repaired (dev_name : string) (d : device) : string :=
+  let d' := names_normalized d in
+  match names_unique d' with
+  | Some e => "error:" ++ show_error e
+  | None =>
+    match refs_candidates d' with
+    | (_ :: _) as l => "oneof:" ++ show_errors l
+    | [] =>
+      match recursive_block_refs d' with
+      | Fail _ => "abort:recursion_check_fuel"
+      | Ok (Some e) => "error:" ++ show_error e
+      | Ok None =>
+        match reset_pass_panic d' with
+        | Some w => "panic:reset_ref_" ++ w
+        | None =>
+          match device_name_check dev_name with
+          | Some e => "error:" ++ show_error e
+          | None =>
+            match lower_accessor dev_name (d_objects d') with
+            | Ok bl => "ok:" ++ String.concat " " (map show_lir_block bl)
+            | Fail _ => "panic:lowering"
+            end
+          end
+        end
+      end
+    end
+  end.
+
+Definition c14_full_repaired (dev_name : string) (d : device) : string :=
+  c14_result_repaired dev_name d ++ " ## " ++ c14_facts d.
